@@ -71,7 +71,7 @@ struct UdpS { std::unique_ptr<ip::udp::socket> s; ip::udp::endpoint ep; std::vec
 struct Conn
 {
 	std::unique_ptr<ip::tcp::acceptor> acc; std::unique_ptr<ip::tcp::socket> cs, ss; Side c, s;
-	int cn = 0, sn = 0; ip::tcp::endpoint cep, sep;
+	int cn = 0, sn = 0; ip::tcp::endpoint cep, sep; bool conn_done = false, acc_done = false;
 };
 
 // a connection whose writing socket object is replaced in mid-stream: after each chunk has been handed to the
@@ -105,6 +105,7 @@ struct Prog
 	std::uint64_t keyseq = 1;
 	bool idle_hook = true;
 	std::int64_t t_base = 0; // virtual time at which the program's traffic starts
+	bool giveup_program = false;
 	bool late_capture = false, capture_on = false; std::size_t capture_from_event = 0; // probe events before this index precede the capture
 
 	Prog(Args const& a_, std::uint64_t seed, std::string path) : a(a_), rng(seed), pcap_path(std::move(path)) {}
@@ -125,6 +126,18 @@ struct Prog
 			if (rng.coin()) net.in_spec[ad].push_back(q(lossy && rng.coin()));
 		}
 		net.def_net.push_back(q(lossy));
+		// a third of the programs give connections up in mid-transfer (see below); half of those get a route on which
+		// drops keep happening long after the sockets are gone: fast unbounded access queues feeding a slow, small
+		// network queue
+		giveup_program = rng.coin(1, 3);
+		if (giveup_program && rng.coin())
+		{
+			// an unbounded access queue that holds a backlog of segments for a long time, feeding a slower, small queue
+			QSpec acc; acc.bw = int(rng.pick(std::vector<int>{20000, 100000})); acc.lat_ns = 1000000; acc.cap = 0;
+			QSpec slow; slow.bw = acc.bw / int(rng.pick(std::vector<int>{2, 4})); slow.lat_ns = 5000000; slow.cap = int(rng.pick(std::vector<int>{1600, 3100, 6000}));
+			for (auto const& ad : addrs) net.out_spec[ad] = {acc};
+			net.def_net = {slow};
+		}
 		if (rng.coin(1, 3)) net.nat_ext[addrs[0]] = addr("66.6.6.6"); // the capture must still show the true addresses
 		net.log = &log;
 		NameEntry ne; ne.lat_ns = 7000000; ne.addrs = {addrs[1]}; net.names["peer.test"] = ne;
@@ -183,17 +196,40 @@ struct Prog
 			API(c.acc->async_accept(*c.ss, track1(aop, [this, cp](error_code const& e) {
 				error_code e2; ip::tcp::endpoint re; if (!e) { API(re = cp->ss->remote_endpoint(e2)); }
 				tr(fmt("accept conn%d ec=%d remote=%s:%u", cp->c.conn_id, e.value(), re.address().to_string().c_str(), unsigned(re.port())));
-				if (e) return; API(cp->ss->non_blocking(true, e2)); cp->s.start_read(); cp->s.start_write(); })));
+				if (e) return; cp->acc_done = true; API(cp->ss->non_blocking(true, e2)); cp->s.start_read(); cp->s.start_write(); })));
 			OpPtr cop = ops.make("tcp.connect", i * 10);
 			std::int64_t const delay = rng.coin() ? 0 : rng.range(0, 30000000);
 			auto go = [this, cp, cop]() {
 				API(cp->cs->async_connect(cp->sep, track1(cop, [this, cp](error_code const& e) {
 					error_code e2; ip::tcp::endpoint le; if (!e) { API(le = cp->cs->local_endpoint(e2)); cp->cep = le; }
 					tr(fmt("connect conn%d ec=%d local=%s:%u", cp->c.conn_id, e.value(), le.address().to_string().c_str(), unsigned(le.port())));
-					if (e) return; API(cp->cs->non_blocking(true, e2)); cp->c.start_read(); cp->c.start_write(); })));
+					if (e) return; cp->conn_done = true; API(cp->cs->non_blocking(true, e2)); cp->c.start_read(); cp->c.start_write(); })));
 			};
 			if (delay == 0 && t_base == 0) go(); else after(delay, go);
 			desc += fmt(" | tcp n%d->n%d %" PRIu64 "/%" PRIu64, c.cn, c.sn, c.c.goal, c.s.goal);
+			if (giveup_program && rng.coin())
+			{
+				// both ends given up in mid-transfer (closed or destroyed, the accepting end first), with segments still
+				// sitting in queues and drops still to come: whatever happens to those packets afterwards must not
+				// depend on what the freed memory holds
+				std::int64_t const t_kill = rng.range(1000000, 80000000); int const how = rng.choose(4);
+				std::int64_t const gap = rng.pick(std::vector<std::int64_t>{0, 30000000, 100000000, 400000000});
+				bool const acceptor_first = rng.coin(2, 3);
+				auto give_up = [this, cp](bool server, bool destroy) {
+					Side& sd = server ? cp->s : cp->c; std::unique_ptr<ip::tcp::socket>& sp = server ? cp->ss : cp->cs;
+					sd.stop = true;
+					if (sp) { if (destroy) { sd.sock = nullptr; API(sp.reset()); } else sd.do_close(); }
+					tr(fmt("conn%d %s %s", cp->c.conn_id, server ? "acceptor side" : "connector", destroy ? "destroyed" : "closed"));
+				};
+				after(delay + t_kill, [this, cp, how, gap, acceptor_first, give_up]() {
+					if (!cp->conn_done || !cp->acc_done) { tr(fmt("conn%d not established yet, left alone", cp->c.conn_id)); return; }
+					give_up(acceptor_first, (how & 1) != 0);
+					R().count("connections_given_up_in_mid_transfer");
+					if (gap == 0) give_up(!acceptor_first, (how & 2) != 0);
+					else after(gap, [give_up, acceptor_first, how]() { give_up(!acceptor_first, (how & 2) != 0); });
+				});
+				desc += fmt(" (given up %" PRId64 " ms after the connect: %s end first, the other %" PRId64 " ms later)", t_kill / 1000000, acceptor_first ? "accepting" : "connecting", gap / 1000000);
+			}
 		}
 		// connections whose writing socket is moved to a new object between chunks
 		int const nm = rng.coin(1, 2) ? 1 + rng.choose(2) : 0;
